@@ -43,7 +43,7 @@ const byteRe = `(re.* (re.range "\u{0}" "\u{ff}"))`
 func (i *interpreter) nondetString(name string) *Sym {
 	p := i.path
 	s := p.input(name, SStr)
-	p.lazy = append(p.lazy, "(str.in_re "+s.e+" "+byteRe+")")
+	p.classCons = append(p.classCons, classCon{s, byteRe, "bytes"})
 	return s
 }
 
@@ -206,7 +206,7 @@ func init() {
 		case *Sym:
 			switch class {
 			case "asciiws":
-				p.pc = append(p.pc, "(str.in_re "+s.e+" (re.* (re.union (re.range \"\\u{9}\" \"\\u{d}\") (str.to_re \" \"))))")
+				p.classCons = append(p.classCons, classCon{s, "(re.* (re.union (re.range \"\\u{9}\" \"\\u{d}\") (str.to_re \" \")))", "asciiws"})
 			case "trimmed":
 				first := "(str.to_code (str.at " + s.e + " 0))"
 				last := "(str.to_code (str.at " + s.e + " (- (str.len " + s.e + ") 1)))"
@@ -222,6 +222,9 @@ func init() {
 					return "(and " + strings.Join(cs, " ") + ")"
 				}
 				p.pc = append(p.pc, "(or (= (str.len "+s.e+") 0) (and "+notIn(first, trimFirstExcl)+" "+notIn(last, trimLastExcl)+"))")
+			case "undented":
+				p.pc = append(p.pc, "(not (str.contains "+s.e+" \"\\u{a} \"))", "(not (str.contains "+s.e+" \"\\u{a}\\u{9}\"))",
+					"(not (str.prefixof \" \" "+s.e+"))", "(not (str.prefixof \"\\u{9}\" "+s.e+"))")
 			case "nocrend":
 				p.pc = append(p.pc, "(not (str.suffixof \"\\u{d}\" "+s.e+"))")
 				p.facts["noend|"+s.e+"|\r"] = true
@@ -350,6 +353,8 @@ func stringInClass(s, class string) bool {
 		return s == "" || (!inSet(s[0], trimFirstExcl) && !inSet(s[len(s)-1], trimLastExcl))
 	case "nocrend":
 		return !strings.HasSuffix(s, "\r")
+	case "undented":
+		return !strings.Contains(s, "\n ") && !strings.Contains(s, "\n\t") && !strings.HasPrefix(s, " ") && !strings.HasPrefix(s, "\t")
 	}
 	return false
 }
